@@ -531,7 +531,7 @@ def comparable(W, ops, i, abs_inputs):
 
 def snapshot(env, extra_states):
     """structural digests of everything that must never change"""
-    snap = {"domain": c17.digest_domain(env.d)}
+    snap = {"domain": c17.digest_domain(env.d), "schema_fluent_values": schema_fluent_values(env.d)}
     wp = walker.w_problem(env.p)
     snap["problem"] = repr((wp["name"], sorted(wp["objects"].items()), sorted(wp["facts"]), sorted(wp["fluents"].items()),
                             sorted(map(repr, wp["goal"])), sorted(map(repr, wp["goal_num"]))))
@@ -539,6 +539,40 @@ def snapshot(env, extra_states):
     for name, st in extra_states.items():
         snap[name] = repr(walker.w_state_detail(st))
     return snap
+
+
+def schema_fluent_values(d):
+    """the value fields of the fluent objects inside the lifted expression trees of the action schemas (and of the
+    domain's function table): scratch space that only GROUNDED copies may ever write"""
+    from anytree import PreOrderIter
+    out = []
+
+    def trees_of(cond):
+        from pddl_plus_parser.models import NumericalExpressionTree
+        from pddl_plus_parser.models.pddl_precondition import Precondition
+        for x in cond.operands:
+            if isinstance(x, NumericalExpressionTree):
+                yield x
+            elif isinstance(x, Precondition):
+                yield from trees_of(x)
+
+    for name in sorted(d.actions):
+        act = d.actions[name]
+        trees = list(trees_of(act.preconditions.root)) + list(act.numeric_effects)
+        for ce in act.conditional_effects:
+            trees += list(trees_of(ce.antecedents.root)) + list(ce.numeric_effects)
+        for ue in act.universal_effects:
+            for ce in ue.conditional_effects:
+                trees += list(trees_of(ce.antecedents.root)) + list(ce.numeric_effects)
+        vals = []
+        for tr in trees:
+            for node in PreOrderIter(tr.root):
+                v = getattr(node, "value", None)
+                if hasattr(v, "untyped_representation"):
+                    vals.append((v.untyped_representation, repr(getattr(v, "value", None))))
+        out.append((name, sorted(vals)))
+    out.append(("functions", sorted((k, repr(getattr(f, "value", None))) for k, f in d.functions.items())))
+    return repr(out)
 
 
 def prepare_dir(ctx, W):
@@ -664,16 +698,21 @@ def run(ctx):
                     violations.append(v)
                     r = ("violation",)
                 results[ti][i] = r
-                ent = stores[ti].get(i)
-                if ent and ent.get("state") is not None and r[0] == "state":
-                    result_digests.append((ti, i, ent["state"], repr(walker.w_state_detail(ent["state"]))))
-                if single_checks and not violations:
-                    now = snapshot(env, {})
-                    if now != snap0:
-                        bad = [k for k in now if now[k] != snap0[k]]
-                        violations.append(Violation("C07/input-modified", op_site(ops[i]),
-                                                    f"after {describe(ops[i])}: {bad} changed",
-                                                    {"what": bad[0]}))
+                # the harness's own observations read library properties: no cancellation is delivered inside them
+                sched_box[0].no_cancel_depth += 1
+                try:
+                    ent = stores[ti].get(i)
+                    if ent and ent.get("state") is not None and r[0] == "state":
+                        result_digests.append((ti, i, ent["state"], repr(walker.w_state_detail(ent["state"]))))
+                    if single_checks and not violations:
+                        now = snapshot(env, {})
+                        if now != snap0:
+                            bad = [k for k in now if now[k] != snap0[k]]
+                            violations.append(Violation("C07/input-modified", op_site(ops[i]),
+                                                        f"after {describe(ops[i])}: {bad} changed",
+                                                        {"what": bad[0]}))
+                finally:
+                    sched_box[0].no_cancel_depth -= 1
         return client
 
     pkg = os.path.join(os.environ.get("VERIF_REPO", "/repo"), "pddl_plus_parser")
